@@ -53,7 +53,9 @@ def parse_svg(text):
         m = re.match(r"translate\(([-\d.eE+]+) ([-\d.eE+]+)\) rotate\(([-\d.eE+]+)\)", lg.get("transform") or "")
         if not m:
             return "a load group has transform %r" % lg.get("transform")
-        ev.append(("ELoadGroup", Fr(m.group(1)), Fr(m.group(2))))
+        import math
+        ang = math.radians(float(m.group(3)))
+        ev.append(("ELoadGroup", Fr(m.group(1)), Fr(m.group(2)), Fr(round(math.cos(ang) * 10 ** 9), 10 ** 9), Fr(round(math.sin(ang) * 10 ** 9), 10 ** 9)))
         inner = list(lg)
         if len(inner) != 1 or tag(inner[0]) != "g":
             return "a load group does not hold exactly one styled group"
@@ -138,7 +140,7 @@ def coq_event(e):
     if k == "ESupport":
         return "ESupport %d%%nat (%d) (%d)" % (e[1], e[2], e[3])
     if k == "ELoadGroup":
-        return "ELoadGroup %s %s" % (C.qlit(e[1]), C.qlit(e[2]))
+        return "ELoadGroup %s %s %s %s" % (C.qlit(e[1]), C.qlit(e[2]), C.qlit(e[3]), C.qlit(e[4]))
     if k == "EPolygon":
         return "EPolygon (%d) (%d) (%d) (%d)" % (e[1], e[2], e[3], e[4])
     return "EEnd"
@@ -225,6 +227,18 @@ def independent_oracle(o, parsed, scale, dscale):
     if len(want) != len(got) or not all(a[0] == b[0] and same_int(b[1], a[1]) and same_int(b[2], a[2]) for a, b in zip(want, got)):
         want = [(a[0], float(a[1]), float(a[2])) for a in want]
         fails.append("support symbols %s, supported nodes of a known kind %s" % (got, want))
+    # every load group sits at the scaled start of a loaded bar and is turned along that bar (what is drawn at local (x, 0) lies on the bar)
+    loaded = [b for b in o["Bars"] if b.get("HasLoads")]
+    for e in (e for e in ev if e[0] == "ELoadGroup"):
+        def fits(b):
+            x1, y1, x2, y2, ln = (C.ffloat(b[k]) for k in ("X1", "Y1", "X2", "Y2", "Len"))
+            return (abs(e[1] - x1 * u) <= Fr(1, 10 ** 5) and abs(e[2] - y1 * u) <= Fr(1, 10 ** 5) and ln != 0 and
+                    abs(e[3] - (x2 - x1) / ln) <= Fr(1, 10 ** 5) and abs(e[4] - (y2 - y1) / ln) <= Fr(1, 10 ** 5))
+        hit = next((b for b in loaded if fits(b)), None)
+        if hit is None:
+            fails.append("a load group at (%s, %s) turned by (cos %s, sin %s) is not at the start of a loaded bar and along it" % tuple(float(v) for v in e[1:5]))
+        else:
+            loaded.remove(hit)
     npoly = sum(1 for e in ev if e[0] == "EPolygon")
     nloc = sum(1 for b in o["Bars"] for l in (b.get("DL") or []) if l["Local"])
     if npoly != nloc:
